@@ -161,6 +161,12 @@ impl SockWorker {
 
     /// Runs one conversation case.  `heads(k)`: does the k-th final response answer a HEAD request.
     pub fn run(&mut self, case: &ConvCase, heads: &(dyn Fn(usize) -> bool + Sync)) -> (Observation, String) {
+        self.run_with_order(case, heads, None)
+    }
+
+    /// As `run`; with `order = Some(permutation of request indices)` every request is handled on
+    /// its own OS thread and the threads enter their finishing action in that order.
+    pub fn run_with_order(&mut self, case: &ConvCase, heads: &(dyn Fn(usize) -> bool + Sync), order: Option<&[usize]>) -> (Observation, String) {
         let nonce = self.nonce();
         let nonce_s = String::from_utf8_lossy(&nonce).to_string();
         let rendered = render(&case.conv);
@@ -180,6 +186,7 @@ impl SockWorker {
         let client_len = AtomicUsize::new(0);
         let delivered: Mutex<Vec<Delivered>> = Mutex::new(vec![]);
         let mut stale = 0usize;
+        let turn = (Mutex::new(0usize), std::sync::Condvar::new());
         let ends_abruptly = matches!(case.script.last(), Some(Step::Close) | Some(Step::Reset));
         let client_result = std::thread::scope(|scope| {
             let client_done = &client_done;
@@ -194,6 +201,7 @@ impl SockWorker {
             // handler loop on this thread
             let t0 = Instant::now();
             let mut settle_polls = 0;
+            let mut threads = vec![];
             loop {
                 let done = client_done.load(Ordering::SeqCst);
                 let got = if done { server.try_recv() } else { server.recv_timeout(Duration::from_millis(2)) };
@@ -209,7 +217,34 @@ impl SockWorker {
                             id => {
                                 let idx = id.and_then(|id| case.conv.reqs.iter().position(|r| r.id == id)).unwrap_or(0);
                                 let prog = case.prog(idx).clone();
-                                if matches!(prog.finish, vcore::conv::Finish::Panic) {
+                                if let Some(order) = order {
+                                    // own thread per request; entering the finishing action is ordered
+                                    let delivered = &delivered;
+                                    let nonce_s = nonce_s.clone();
+                                    let cl = client_len.load(Ordering::SeqCst);
+                                    let turn = &turn;
+                                    let order: Vec<usize> = order.to_vec();
+                                    let client_done: &AtomicBool = client_done;
+                                    threads.push(scope.spawn(move || {
+                                        let before = || {
+                                            let pos = order.iter().position(|x| *x == idx).unwrap_or(usize::MAX);
+                                            let (m, cv) = turn;
+                                            let mut t = m.lock().unwrap();
+                                            // wait for the predecessors in the chosen order (bounded: a predecessor
+                                            // that is never delivered must not block us forever)
+                                            let t0 = Instant::now();
+                                            while *t < pos && pos != usize::MAX && t0.elapsed() < Duration::from_secs(5) && !client_done.load(Ordering::SeqCst) {
+                                                let (g, _) = cv.wait_timeout(t, Duration::from_millis(20)).unwrap();
+                                                t = g;
+                                            }
+                                            if pos != usize::MAX && *t <= pos {
+                                                *t = pos + 1;
+                                            }
+                                            cv.notify_all();
+                                        };
+                                        let _ = std::panic::catch_unwind(std::panic::AssertUnwindSafe(|| interp::handle_with(rq, &prog, &nonce_s, cl, delivered, &before)));
+                                    }));
+                                } else if matches!(prog.finish, vcore::conv::Finish::Panic) {
                                     // a panicking handler needs its own thread
                                     let delivered = &delivered;
                                     let nonce_s = nonce_s.clone();
@@ -246,6 +281,9 @@ impl SockWorker {
                 if t0.elapsed() > WATCHDOG + Duration::from_secs(5) {
                     break;
                 }
+            }
+            for t in threads {
+                let _ = t.join();
             }
             h.join()
         });
